@@ -118,9 +118,9 @@ class DefUse:
 # A2: await collapse
 
 
-POLL = "std::future::Future::poll"
-INTO_FUTURE = "std::future::IntoFuture::into_future"
-NEW_UNCHECKED = "std::pin::Pin::<Ptr>::new_unchecked"
+POLL = "core::future::future::Future::poll"
+INTO_FUTURE = "core::future::into_future::IntoFuture::into_future"
+NEW_UNCHECKED = "core::pin::Pin::<Ptr>::new_unchecked"
 
 
 class Await:
@@ -157,7 +157,7 @@ def awaits(body, du=None):
         fut = None
         if recv:
             d = du.single_def(recv[0])
-            if d and d[0] == "call" and d[4].get("callee", "").startswith("std::pin::Pin"):
+            if d and d[0] == "call" and d[4].get("callee", "").startswith("core::pin::Pin"):
                 inner = op_place(d[4]["args"][0])
                 if inner:
                     chain = du.trace_copy(inner[0])
@@ -291,8 +291,8 @@ def bool_switch_after(body, bb, local, du=None):
 # --------------------------------------------------------------------------
 # A4: outcome classification
 
-TRY_BRANCH = "std::ops::Try::branch"
-FROM_RESIDUAL = "std::ops::FromResidual::from_residual"
+TRY_BRANCH = "core::ops::try_trait::Try::branch"
+FROM_RESIDUAL = "core::ops::try_trait::FromResidual::from_residual"
 
 
 def outcome_sites(body):
@@ -359,56 +359,51 @@ def try_sites(body, du=None):
 
 # callee -> index of the argument whose value flows (identity-like) to the result
 PASS_THROUGH = {
-    "std::clone::Clone::clone": 0,
-    "std::convert::Into::into": 0,
-    "std::convert::From::from": 0,
-    "std::convert::AsRef::as_ref": 0,
-    "std::convert::AsMut::as_mut": 0,
-    "std::borrow::Borrow::borrow": 0,
-    "std::borrow::ToOwned::to_owned": 0,
-    "std::ops::Deref::deref": 0,
-    "std::ops::DerefMut::deref_mut": 0,
-    "std::string::ToString::to_string": 0,
-    "std::string::String::as_str": 0,
-    "std::string::String::as_bytes": 0,
-    "std::string::String::into_bytes": 0,
+    "core::clone::Clone::clone": 0,
+    "core::convert::Into::into": 0,
+    "core::convert::From::from": 0,
+    "core::convert::AsRef::as_ref": 0,
+    "core::convert::AsMut::as_mut": 0,
+    "core::borrow::Borrow::borrow": 0,
+    "alloc::borrow::ToOwned::to_owned": 0,
+    "core::ops::deref::Deref::deref": 0,
+    "core::ops::deref::DerefMut::deref_mut": 0,
+    "alloc::string::ToString::to_string": 0,
+    "alloc::string::String::as_str": 0,
+    "alloc::string::String::as_bytes": 0,
+    "alloc::string::String::into_bytes": 0,
     "core::str::<impl str>::as_bytes": 0,
-    "core::str::<impl str>::to_owned": 0,
-    "std::str::<impl str>::to_owned": 0,
     "alloc::str::<impl str>::to_owned": 0,
-    "std::slice::<impl [T]>::to_vec": 0,
     "alloc::slice::<impl [T]>::to_vec": 0,
     "core::slice::<impl [T]>::iter": 0,
-    "std::vec::Vec::<T, A>::as_slice": 0,
-    "std::vec::Vec::<T>::from": 0,
-    "std::option::Option::<T>::as_ref": 0,
-    "std::option::Option::<T>::as_mut": 0,
-    "std::option::Option::<T>::as_deref": 0,
-    "std::option::Option::<T>::cloned": 0,
-    "std::option::Option::<&T>::cloned": 0,
-    "std::option::Option::<&T>::copied": 0,
-    "std::option::Option::<T>::take": 0,
-    "std::result::Result::<T, E>::as_ref": 0,
-    "std::borrow::Cow::<'_, B>::into_owned": 0,
-    "std::future::IntoFuture::into_future": 0,
-    "std::pin::Pin::<Ptr>::new_unchecked": 0,
-    "std::boxed::Box::<T>::new": 0,
-    "std::boxed::Box::<T>::pin": 0,
-    "std::iter::IntoIterator::into_iter": 0,
-    "std::mem::take": 0,
+    "core::array::<impl [T; N]>::as_slice": 0,
+    "alloc::vec::Vec::<T, A>::as_slice": 0,
+    "core::option::Option::<T>::as_ref": 0,
+    "core::option::Option::<T>::as_mut": 0,
+    "core::option::Option::<T>::as_deref": 0,
+    "core::option::Option::<&T>::cloned": 0,
+    "core::option::Option::<&T>::copied": 0,
+    "core::option::Option::<T>::take": 0,
+    "core::result::Result::<T, E>::as_ref": 0,
+    "alloc::borrow::Cow::<'_, B>::into_owned": 0,
+    "core::future::into_future::IntoFuture::into_future": 0,
+    "core::pin::Pin::<Ptr>::new_unchecked": 0,
+    "alloc::boxed::Box::<T>::new": 0,
+    "alloc::boxed::Box::<T>::pin": 0,
+    "core::iter::traits::collect::IntoIterator::into_iter": 0,
+    "core::hint::must_use": 0,
+    "core::mem::take": 0,
 }
 
-# wrappers/unwrappers: callee -> (arg index, strip, add) path adaptation:
-# result path R ; arg path = translate(R)
+# unwrappers: result = arg.<Variant>.0
 UNWRAP = {
-    # result = arg.Some.0 / arg.Ok.0
-    "std::option::Option::<T>::unwrap": ("Some",),
-    "std::option::Option::<T>::expect": ("Some",),
-    "std::option::Option::<T>::unwrap_or_default": ("Some",),
-    "std::option::Option::<T>::unwrap_or": ("Some",),
-    "std::result::Result::<T, E>::unwrap": ("Ok",),
-    "std::result::Result::<T, E>::expect": ("Ok",),
-    "std::result::Result::<T, E>::unwrap_or_default": ("Ok",),
+    "core::option::Option::<T>::unwrap": ("Some",),
+    "core::option::Option::<T>::expect": ("Some",),
+    "core::option::Option::<T>::unwrap_or_default": ("Some",),
+    "core::option::Option::<T>::unwrap_or": ("Some",),
+    "core::result::Result::<T, E>::unwrap": ("Ok",),
+    "core::result::Result::<T, E>::expect": ("Ok",),
+    "core::result::Result::<T, E>::unwrap_or_default": ("Ok",),
 }
 
 
@@ -657,7 +652,7 @@ class Origins:
                 if i < len(args):
                     self._operand(body, args[i], path, ctx, acc, seen)
                 # From/Into between different types is a conversion: also record it
-                if n in ("std::convert::Into::into", "std::convert::From::from"):
+                if n in ("core::convert::Into::into", "core::convert::From::from"):
                     acc.add(Atom(("conv", callee_of(t), t.get("callee_full", ""), "")))
                 return
             if n in UNWRAP:
@@ -753,3 +748,436 @@ def atoms_summary(atoms):
         else:
             out.append("%s:%s" % (k, a[1]))
     return sorted(set(out))
+
+
+# --------------------------------------------------------------------------
+# Flow-sensitive layer: reaching definitions and value terms (global value
+# numbering style).  Still purely static: terms are built from def chains.
+
+
+def _is_prefix(a, b):
+    return len(a) <= len(b) and b[:len(a)] == a
+
+
+class ReachingDefs:
+    """Classic forward may-analysis. A def site is (bb, idx) with idx = statement index or 't'
+    (terminator).  Strong defs kill defs of the same local whose path they cover; taking `&mut L`
+    or `&raw mut L` is a weak def of L (the callee receiving the reference may write it)."""
+
+    def __init__(self, body, removed_edges=()):
+        self.body = body
+        self.removed_edges = set(removed_edges)
+        self.sites = {}  # site -> (local, path, kind, payload, strong)
+        self.by_local = defaultdict(list)
+        nb = len(body.blocks)
+        for bb, blk in enumerate(body.blocks):
+            if blk["cleanup"]:
+                continue
+            for i, s in enumerate(blk["stmts"]):
+                if s["k"] == "assign":
+                    l, p = norm_place(s["place"])
+                    deref_write = any(e["k"] == "deref" for e in s["place"]["p"])
+                    self._add((bb, i), l, p, "assign", s["rv"], not deref_write)
+                    rv = s["rv"]
+                    if (rv["k"] == "ref" and rv.get("mut")) or rv["k"] == "rawptr":
+                        l2, p2 = norm_place(rv["place"])
+                        if not any(e["k"] == "deref" for e in rv["place"]["p"]):
+                            self._add((bb, "m%d" % i), l2, p2, "mutref", s, False)
+            t = blk["term"]
+            if t is None:
+                continue
+            if t["k"] == "call":
+                l, p = norm_place(t["dest"])
+                self._add((bb, "t"), l, p, "call", t, True)
+            elif t["k"] == "yield":
+                l, p = norm_place(t["resume_arg"])
+                self._add((bb, "t"), l, p, "yield", t, True)
+        # params
+        for l in range(1, body.arg_count + 1):
+            self._add((-1, l), l, (), "param", None, True)
+        self._per = {}
+
+    def _add(self, site, local, path, kind, payload, strong):
+        self.sites[site] = (local, path, kind, payload, strong)
+        self.by_local[local].append(site)
+
+    def _order(self, bb):
+        """sites of a block in execution order"""
+        blk = self.body.blocks[bb]
+        out = []
+        for i, s in enumerate(blk["stmts"]):
+            if (bb, i) in self.sites:
+                out.append((bb, i))
+            if (bb, "m%d" % i) in self.sites:
+                out.append((bb, "m%d" % i))
+        if (bb, "t") in self.sites:
+            out.append((bb, "t"))
+        return out
+
+    def _apply(self, state, site):
+        local, path, kind, payload, strong = self.sites[site]
+        if strong:
+            dead = [s for s in state if self.sites[s][0] == local and _is_prefix(path, self.sites[s][1])]
+            for s in dead:
+                state.discard(s)
+        state.add(site)
+
+    def _solve(self):
+        body = self.body
+        nb = len(body.blocks)
+        self.inn = [set() for _ in range(nb)]
+        self.inn[0] = {s for s in self.sites if s[0] == -1}
+        work = deque([0])
+        inq = {0}
+        out_cache = {}
+        while work:
+            b = work.popleft()
+            inq.discard(b)
+            st = set(self.inn[b])
+            for site in self._order(b):
+                # call dest is only defined on the return edge; approximate: defined
+                self._apply(st, site)
+            if out_cache.get(b) == st:
+                continue
+            out_cache[b] = st
+            for s in body.succs(b):
+                if body.blocks[s]["cleanup"] or (b, s) in self.removed_edges:
+                    continue
+                if not st <= self.inn[s]:
+                    self.inn[s] |= st
+                    if s not in inq:
+                        work.append(s)
+                        inq.add(s)
+
+    def at(self, bb, idx):
+        """reaching set just before statement idx of bb (idx int, or 't' for the terminator)"""
+        st = set(self.inn[bb])
+        for site in self._order(bb):
+            sidx = site[1]
+            if idx != "t":
+                if sidx == "t":
+                    break
+                n = int(sidx[1:]) if isinstance(sidx, str) else sidx
+                if n >= idx:
+                    break
+            else:
+                if sidx == "t":
+                    break
+            self._apply(st, site)
+        return st
+
+    def _solve_for(self, local, path):
+        """Precise reaching defs for one access path: a def covering the path (its own path is a
+        prefix of `path`) kills every earlier def; deeper or mutable-borrow defs accumulate."""
+        key = (local, path)
+        if key in self._per:
+            return self._per[key]
+        body = self.body
+        nb = len(body.blocks)
+        rel = [s for s in self.by_local.get(local, []) if _is_prefix(self.sites[s][1], path) or _is_prefix(path, self.sites[s][1])]
+        relset = set(rel)
+        inn = [None] * nb
+        inn[0] = frozenset(s for s in rel if s[0] == -1)
+        work = deque([0])
+        while work:
+            b = work.popleft()
+            st = set(inn[b])
+            for site in self._order(b):
+                if site in relset:
+                    self._apply_for(st, site, path)
+            st = frozenset(st)
+            for sc in body.succs(b):
+                if body.blocks[sc]["cleanup"] or (b, sc) in self.removed_edges:
+                    continue
+                if inn[sc] is None:
+                    inn[sc] = st
+                    work.append(sc)
+                elif not st <= inn[sc]:
+                    inn[sc] = inn[sc] | st
+                    work.append(sc)
+        self._per[key] = (inn, relset)
+        return self._per[key]
+
+    def _apply_for(self, st, site, path):
+        l, dpath, kind, payload, strong = self.sites[site]
+        if strong and _is_prefix(dpath, path):
+            st.clear()
+        st.add(site)
+
+    def defs_of(self, local, path, bb, idx):
+        """def sites reaching (bb, idx) that may determine (part of) local.path"""
+        inn, relset = self._solve_for(local, path)
+        if inn[bb] is None:
+            return []
+        st = set(inn[bb])
+        for site in self._order(bb):
+            sidx = site[1]
+            if idx != "t":
+                if sidx == "t":
+                    break
+                n = int(sidx[1:]) if isinstance(sidx, str) else sidx
+                if n >= idx:
+                    break
+            else:
+                if sidx == "t":
+                    break
+            if site in relset:
+                self._apply_for(st, site, path)
+        return sorted(st, key=str)
+
+
+class Terms:
+    """Value terms of operands at program points (value-numbering style, hashable tuples)."""
+
+    def __init__(self, program, body, rd=None):
+        self.p = program
+        self.body = body
+        self.rd = rd or ReachingDefs(body)
+        self.du = DefUse(body)
+        self._aw = None
+        self.memo = {}
+
+    def awaits(self):
+        if self._aw is None:
+            self._aw = awaits(self.body, self.du)
+        return self._aw
+
+    def operand(self, op, bb, idx, depth=0):
+        if op is None:
+            return ("none",)
+        if op["k"] == "const":
+            v = op.get("str")
+            if v is None and "bytes" in op:
+                v = bytes(op["bytes"])
+            if v is None and "bits" in op:
+                v = int(op["bits"])
+            if v is None:
+                v = op.get("uneval") or op.get("fn") or op["s"]
+            return ("const", v)
+        if op["k"] in ("copy", "move"):
+            l, p = norm_place(op["place"])
+            return self.place(l, p, bb, idx, depth)
+        return ("opaque", op.get("s", "?"))
+
+    def place(self, local, path, bb, idx, depth=0):
+        key = (local, path, bb, idx)
+        if key in self.memo:
+            return self.memo[key]
+        if depth > 60:
+            return ("deep",)
+        self.memo[key] = ("cyclic", local)
+        sites = self.rd.defs_of(local, path, bb, idx)
+        terms = set()
+        updates = set()
+        for s in sites:
+            dpath = self.rd.sites[s][1]
+            kind = self.rd.sites[s][2]
+            if kind != "mutref" and not _is_prefix(dpath, path):
+                # def of a sub-part of the queried place: functional update of the base value
+                updates.add((dpath[len(path):], self._site_term(s, local, dpath, depth + 1)))
+            else:
+                terms.add(self._site_term(s, local, path, depth + 1))
+        if not sites:
+            r = ("undef", local, path)
+        elif len(terms) == 1:
+            r = next(iter(terms))
+        elif not terms:
+            r = ("undef", local, path)
+        else:
+            r = ("phi", frozenset(terms))
+        if updates:
+            r = ("with", r, frozenset(updates))
+        self.memo[key] = r
+        return r
+
+    def _project(self, term, path):
+        """project a term by remaining access path"""
+        for e in path:
+            if term[0] == "agg":
+                _, adt, variant, fields = term
+                if isinstance(e, tuple):
+                    if e[1] == variant:
+                        continue
+                    return ("never",)
+                d = dict(fields)
+                if e in d:
+                    term = d[e]
+                    continue
+                if e == "[]":
+                    term = ("elem", term)
+                    continue
+                return ("field", term, e)
+            term = ("field", term, e if isinstance(e, str) else "as " + e[1])
+        return term
+
+    def _site_term(self, site, local, path, depth):
+        l, dpath, kind, payload, strong = self.rd.sites[site]
+        bb = site[0]
+        if kind == "param":
+            body = self.body
+            if body.is_coroutine and l == 1 and path and isinstance(path[0], str) and path[0].isdigit():
+                return self._project(("upvar", int(path[0])), path[1:])
+            return self._project(("param", l), path)
+        if kind == "mutref":
+            return ("mutated", l, site)
+        if not _is_prefix(dpath, path):
+            # def of a sub-part of the queried place
+            return ("partial", l, site)
+        rest = path[len(dpath):]
+        if kind == "yield":
+            return ("resume",)
+        if kind == "assign":
+            idx = site[1]
+            return self._project(self._rvalue(payload, bb, idx, depth), rest)
+        if kind == "call":
+            return self._project(self._call(payload, bb, depth), rest)
+        return ("opaque", str(site))
+
+    def _rvalue(self, rv, bb, idx, depth):
+        k = rv["k"]
+        if k == "use":
+            return self.operand(rv["op"], bb, idx, depth)
+        if k in ("ref", "copyforderef", "rawptr"):
+            l, p = norm_place(rv["place"])
+            return self.place(l, p, bb, idx, depth)
+        if k == "cast":
+            inner = self.operand(rv["op"], bb, idx, depth)
+            if rv["ck"].startswith("PointerCoercion") or rv["ck"] in ("PtrToPtr", "Transmute"):
+                return inner
+            return ("cast", rv["ty"], inner)
+        if k == "agg":
+            ak = rv.get("ak")
+            ops = [self.operand(o, bb, idx, depth) for o in rv["ops"]]
+            if ak == "adt":
+                fields = rv.get("fields", [])
+                if len(fields) == len(ops):
+                    return ("agg", rv["adt"], rv["variant"], tuple(zip(fields, ops)))
+                return ("agg", rv["adt"], rv["variant"], tuple((str(i), o) for i, o in enumerate(ops)))
+            if ak == "tuple":
+                return ("agg", "tuple", "", tuple((str(i), o) for i, o in enumerate(ops)))
+            if ak == "array":
+                return ("array", tuple(ops))
+            if ak in ("closure", "coroutine", "coroutine_closure"):
+                return ("closure", rv["def"], tuple(ops))
+            return ("agg", ak, "", tuple((str(i), o) for i, o in enumerate(ops)))
+        if k == "binop":
+            return ("binop", rv["op"], self.operand(rv["a"], bb, idx, depth), self.operand(rv["b"], bb, idx, depth))
+        if k == "unop":
+            return ("unop", rv["op"], self.operand(rv["a"], bb, idx, depth))
+        if k == "discr":
+            l, p = norm_place(rv["place"])
+            return ("discr", self.place(l, p, bb, idx, depth))
+        if k == "repeat":
+            return ("repeat", self.operand(rv["op"], bb, idx, depth), rv["n"])
+        return ("opaque", rv.get("s", k))
+
+    def _call(self, t, bb, depth):
+        callee = t.get("callee") or ""
+        names = callee_names(t)
+        args = t["args"]
+        if callee == TRY_BRANCH:
+            inner = self.operand(args[0], bb, "t", depth)
+            return ("try", inner)
+        if callee == POLL:
+            aw = [a for a in self.awaits() if a.poll_bb == bb]
+            if aw and aw[0].call is not None:
+                c = aw[0].call
+                at = tuple(self.operand(a, aw[0].call_bb, "t", depth) for a in c["args"])
+                return ("agg", "core::task::poll::Poll", "Ready", (("0", ("await", callee_of(c), at, aw[0].call_bb)),))
+            return ("agg", "core::task::poll::Poll", "Ready", (("0", ("await_unknown", bb)),))
+        for n in names:
+            if n in PASS_THROUGH:
+                return self.operand(args[PASS_THROUGH[n]], bb, "t", depth)
+        at = tuple(self.operand(a, bb, "t", depth) for a in args)
+        return ("call", callee_of(t), at, bb)
+
+    # `try` projections: (try x).Continue.0 == x.Ok.0
+    def simplify(self, term):
+        return simplify_term(term)
+
+
+def simplify_term(t):
+    """normalise: field(try(x), Continue, 0) -> field(x, Ok/Some, 0); project through aggs"""
+    if not isinstance(t, tuple) or not t:
+        return t
+    if t[0] == "field":
+        base = simplify_term(t[1])
+        name = t[2]
+        if base[0] == "agg":
+            _, adt, variant, fields = base
+            if name.startswith("as "):
+                return base if name[3:] == variant else ("never",)
+            d = dict(fields)
+            if name in d:
+                return simplify_term(d[name])
+        if base[0] == "try" and name in ("as Continue",):
+            return ("field", simplify_term(base[1]), "as OkOrSome")
+        if base[0] == "try" and name in ("as Break",):
+            return ("field", simplify_term(base[1]), "as ErrOrNone")
+        if base[0] == "field" and base[2] == "as OkOrSome" and name == "0":
+            return ("payload", base[1])
+        if base[0] == "phi":
+            return ("phi", frozenset(simplify_term(("field", x, name)) for x in base[1]))
+        return ("field", base, name)
+    if t[0] == "phi":
+        s = frozenset(simplify_term(x) for x in t[1])
+        s = frozenset(x for x in s if x != ("never",)) or s
+        return next(iter(s)) if len(s) == 1 else ("phi", s)
+    if t[0] == "agg":
+        return ("agg", t[1], t[2], tuple((k, simplify_term(v)) for k, v in t[3]))
+    if t[0] in ("call", "await"):
+        return (t[0], t[1], tuple(simplify_term(a) for a in t[2]), t[3])
+    if t[0] in ("binop",):
+        return ("binop", t[1], simplify_term(t[2]), simplify_term(t[3]))
+    if t[0] in ("unop", "cast", "discr", "try"):
+        return t[:-1] + (simplify_term(t[-1]),)
+    if t[0] == "with":
+        return ("with", simplify_term(t[1]), frozenset((pth, simplify_term(v)) for pth, v in t[2]))
+    return t
+
+
+def term_str(t, depth=0):
+    if not isinstance(t, tuple) or not t:
+        return str(t)
+    if depth > 6:
+        return "…"
+    k = t[0]
+    d = depth + 1
+    if k == "const":
+        return repr(t[1]) if not isinstance(t[1], (bytes,)) else "b" + repr(t[1])[1:]
+    if k == "param":
+        return "param_%d" % t[1]
+    if k == "upvar":
+        return "upvar_%d" % t[1]
+    if k == "field":
+        return "%s.%s" % (term_str(t[1], d), t[2])
+    if k == "payload":
+        return "payload(%s)" % term_str(t[1], d)
+    if k == "agg":
+        return "%s::%s{%s}" % (t[1].rsplit("::", 1)[-1], t[2], ", ".join("%s: %s" % (a, term_str(b, d)) for a, b in t[3]))
+    if k in ("call", "await"):
+        return "%s%s(%s)" % ("await " if k == "await" else "", t[1].rsplit("::", 2)[-2] + "::" + t[1].rsplit("::", 1)[-1] if "::" in t[1] else t[1], ", ".join(term_str(a, d) for a in t[2]))
+    if k == "binop":
+        return "%s(%s, %s)" % (t[1], term_str(t[2], d), term_str(t[3], d))
+    if k == "phi":
+        return "phi{%s}" % " | ".join(sorted(term_str(x, d) for x in t[1]))
+    if k == "with":
+        return "%s with {%s}" % (term_str(t[1], d), ", ".join(sorted("%s: %s" % (".".join(str(e) for e in pth), term_str(v, d)) for pth, v in t[2])))
+    if k in ("unop", "cast", "discr", "try"):
+        return "%s(%s)" % (k if k not in ("unop", "cast") else t[1], term_str(t[-1], d))
+    return str(t)
+
+
+def term_contains(t, pred):
+    """does any sub-term satisfy pred?"""
+    if pred(t):
+        return True
+    if isinstance(t, tuple):
+        for x in t:
+            if isinstance(x, (tuple, frozenset)):
+                if isinstance(x, frozenset):
+                    if any(term_contains(y, pred) for y in x):
+                        return True
+                elif term_contains(x, pred):
+                    return True
+    return False
